@@ -14,7 +14,9 @@ import (
 	signschemes "github.com/cloudflare/circl/sign/schemes"
 )
 
-func seedBytes(seed uint64, n int) []byte { return core.NewPRNG(seed*0x9e3779b97f4a7c15 + 12345).Bytes(n) }
+func seedBytes(seed uint64, n int) []byte {
+	return core.NewPRNG(seed*0x9e3779b97f4a7c15 + 12345).Bytes(n)
+}
 
 // AllKEMs is the list of KEM schemes the simulator drives (used by C01 too).
 func AllKEMs() []kem.Scheme {
